@@ -3,4 +3,4 @@ Require Extraction.
 Require Import ExtrOcamlBasic.
 Extraction "model.ml" calcline lines decode_escape esc_defined_b depth too_deep threshold
   ctx_local ctx_return level_cost inner_cost MAXRECLEVEL LPEG_MAXSTACK Z.to_N
-  cap_threshold bt_threshold family_outcome format_diag parse_work capture_stack_worst ccall_stack_worst CSTACK_BUDGET.
+  cap_threshold bt_threshold family_outcome format_diag parse_work_call parse_work_macro parse_work_assign_callidx capture_stack_worst ccall_stack_worst CSTACK_BUDGET.
